@@ -425,12 +425,177 @@ def batched_eval(ctx, name, pre, kexprs, batch=12, files=4):
     return out
 
 
+# --------------------------------------------------------------------------
+# the real table builders (ValueGridBuilder.cc) -> XsCalculator on the built grid
+
+def gen_builder_cases(ctx):
+    r = ctx.rng
+    thorough = ctx.tier != "quick"
+    specs = []        # (emin, emax, n, style)
+    # Geant4-style binnings: emin = 10^a, d decades, b bins per decade (the standard EM tables are
+    # 100 eV .. 100 TeV with 7 bins per decade = 85 points)
+    specs.append((1e-4, 1e8, 85, 0))
+    for _ in range(14 if not thorough else 120):
+        a = r.randrange(-6, 1); d = r.randrange(1, 15); b = r.choice([1, 2, 3, 5, 7, 7, 10, 20])
+        if d * b + 1 <= 200:
+            specs.append((10.0 ** a, 10.0 ** (a + d), d * b + 1, r.randrange(3)))
+    for _ in range(14 if not thorough else 120):
+        emin = 10 ** r.uniform(-6, 1)
+        specs.append((emin, emin * 10 ** r.uniform(0.2, 12), r.choice([2, 3, 4, 5, 6, 9, 17, 50, 100, 200, r.randrange(2, 201)]),
+                      r.randrange(2)))
+    cases = []
+    for gi, (emin, emax, n, style) in enumerate(specs):
+        lmin, lmax = math.log(emin), math.log(emax)
+        if style == 0:
+            es = [math.exp(lmin + (lmax - lmin) / (n - 1) * i) for i in range(n)]
+        elif style == 1:
+            es = [emin * (emax / emin) ** (i / (n - 1)) for i in range(n)]
+        else:
+            bpd = (n - 1) / round(math.log10(emax / emin))
+            es = [emin * 10 ** (i / bpd) for i in range(n)]
+        es[0], es[-1] = emin, emax
+        if any(not (x < y) for x, y in zip(es, es[1:])):
+            continue
+        ph = r.uniform(0, 6)
+        if gi % 2 == 0:
+            phys = [2.5 + math.sin(0.37 * math.log(e) + ph) + 0.02 * math.log(e) for e in es]
+        else:
+            v = 10 ** r.uniform(-3, 3); phys = []
+            for _ in es:
+                phys.append(v); v *= r.uniform(0.5, 2.0)
+        if n <= 12 or gi == 0:
+            ks = list(range(0, n - 1))
+        else:
+            ks = sorted({0, 1, 2, n - 3, n - 2} | {r.randrange(0, n - 1) for _ in range(8)})
+        for k in ks:
+            mode = 0 if (gi == 0 or r.random() < 0.5) else 1
+            idx = {0, n - 1, r.randrange(n), r.randrange(n)} | {i for i in (k - 2, k - 1, k, k + 1) if 0 <= i < n}
+            q = []
+            for i in sorted(idx):
+                q += [ulps(es[i], -1), es[i], ulps(es[i], 1)]
+            for i in sorted({0, n - 2, r.randrange(n - 1)} | {i for i in (k - 2, k - 1, k) if 0 <= i < n - 1}):
+                q += [math.sqrt(es[i] * es[i + 1]), es[i] + 0.9 * (es[i + 1] - es[i])]
+            q += [emin * 0.3, emax * 3.0]
+            cases.append(dict(mode=mode, k=k, es=es, phys=phys, q=q))
+        # unscaled builders on the same grid: energy-loss-like table and a range table
+        cases.append(dict(mode=2, k=-1, es=es, phys=phys, q=[es[0], es[-1], es[n // 2]] +
+                          [math.sqrt(es[i] * es[i + 1]) for i in sorted({0, n - 2, r.randrange(n - 1)})]))
+        rr = [10 ** r.uniform(-4, 2)]
+        for _ in range(n - 1):
+            rr.append(rr[-1] * r.uniform(1.01, 2.0))
+        cases.append(dict(mode=3, k=-1, es=es, phys=rr, q=sorted([es[0], es[-1], es[n // 2], es[0] * 0.5, es[-1] * 2] +
+                          [math.sqrt(es[i] * es[i + 1]) for i in sorted({0, n - 2, r.randrange(n - 1)})])))
+    return cases
+
+
+def builder_line(c):
+    return "vgb %d %d %d %s %d %s %d %s" % (c["mode"], c["k"], len(c["es"]), " ".join(map(hx, c["es"])),
+                                            len(c["phys"]), " ".join(map(hx, c["phys"])), len(c["q"]), " ".join(map(hx, c["q"])))
+
+
+def builder_oracle(c, prime, qv, knots):
+    """the property's clauses against the INPUT table given to the builder"""
+    es, phys, k, mode = c["es"], c["phys"], c["k"], c["mode"]
+    n = len(es)
+    if any(not math.isfinite(v) for v in qv + knots):
+        return "non-finite lookup on a built grid", None
+    if mode in (0, 1) and prime != k:
+        # prime_index law: E[prime_index] == eprime
+        return "built prime_index %d but eprime is knot %d of the imported table" % (prime, k), es[k]
+    if mode in (2, 3) and prime != -1:
+        return "unscaled builder produced a scaled grid", None
+    if mode != 3:
+        for i, v in enumerate(knots):
+            if not close(v, phys[i], rtol=1e-9):
+                return "XsCalculator[%d] = %r does not reproduce the imported value %r" % (i, v, phys[i]), es[i]
+    for e, v in zip(c["q"], qv):
+        if mode == 3:
+            ref_lo = phys[0] * math.sqrt(min(e, es[0]) / es[0])
+            if e <= es[0] * (1 - 1e-12):
+                ok = close(v, ref_lo, rtol=1e-12)
+            elif e >= es[-1]:
+                ok = close(v, phys[-1], rtol=1e-12)
+            else:
+                i = min(n - 2, max(0, bisect.bisect_right(es, e) - 1))
+                ok = between(v, phys[i], phys[i + 1], 1e-9)
+            if not ok:
+                return "RangeCalculator on the built grid is not consistent with the imported range table", e
+            continue
+        if e < es[0] or e > es[-1]:
+            i = 0 if e < es[0] else n - 1
+            ref = phys[i] * es[i] / e if (0 <= k <= i) else phys[i]
+            if not close(v, ref, rtol=1e-9):
+                return "extrapolation on the built grid differs from the documented rule", e
+            continue
+        near = [j for j in range(n) if abs(e - es[j]) <= 8 * math.ulp(e)]
+        if near:
+            if not close(v, phys[near[0]], rtol=1e-7):
+                return ("lookup at (or one ulp from) knot %d gives %r, the imported table says %r" % (near[0], v, phys[near[0]])), e
+        else:
+            i = min(n - 2, max(0, bisect.bisect_right(es, e) - 1))
+            if not between(v, phys[i], phys[i + 1], 1e-9):
+                return ("lookup in bin %d gives %r, outside the neighbouring imported values %r, %r" % (i, v, phys[i], phys[i + 1])), e
+    return None, None
+
+
+def run_builders(ctx):
+    ctx.build_libs(["celeritas"])
+    exe = ctx.compile_harness([os.path.join(HERE, "harness", "builder.cc")], "builder",
+                              libs=["celeritas", "orange", "geocel", "corecel"])
+    cases = gen_builder_cases(ctx)
+    rc, out = ctx.run_harness(exe, input="".join(builder_line(c) + "\n" for c in cases), timeout=900)
+    lines = out.splitlines()
+    if rc != 0 or len(lines) != len(cases):
+        raise vlib.BuildError("builder harness failed rc=%d (%d lines for %d cases)" % (rc, len(lines), len(cases)), out[-1500:])
+    parsed, exprs, emap = [], [], []
+    for ci, (c, ln) in enumerate(zip(cases, lines)):
+        if ln.startswith("exception"):
+            parsed.append(None)
+            continue
+        head, qs, ks = (ln.split("|") + ["", ""])[:3]
+        h = head.split()
+        parsed.append((int(h[0]), [pf(t) for t in qs.split()], [pf(t) for t in ks.split()]))
+        if c["mode"] in (0, 1):
+            exprs.append(("prime", "run_build_prime %s %s %s %d" % (hexf(pf(h[1])), hexf(pf(h[2])), hexf(pf(h[3])), int(h[4]))))
+            emap.append(ci)
+    mvals = batched_eval(ctx, "builder", PRE, exprs, batch=100, files=2)
+    model_prime = dict(zip(emap, mvals))
+    nv = {}
+    for ci, (c, pr) in enumerate(zip(cases, parsed)):
+        kind = "builder-mode%d" % c["mode"]
+        ctx.count("kind:" + kind)
+        for q in c["q"]:
+            ctx.case((kind, c["k"], hx(c["es"][0]), hx(c["es"][-1]), len(c["es"]), hx(q)), nontrivial=True)
+        if nv.get(kind, 0) >= 2:
+            continue
+        rep = {"builder": ["ValueGridXsBuilder(emin,eprime,emax,xs)", "ValueGridXsBuilder::from_geant/from_scaled",
+                           "ValueGridLogBuilder::from_geant", "ValueGridLogBuilder::from_range"][c["mode"]],
+               "emin": hx(c["es"][0]), "emax": hx(c["es"][-1]), "points": len(c["es"]), "prime_knot": c["k"],
+               "command": builder_line(c)[:6000], "implementation": lines[ci][:3000]}
+        if pr is None:
+            nv[kind] = nv.get(kind, 0) + 1
+            ctx.violation("oracle", "the builder rejected a valid imported-style table: " + lines[ci][:160], rep)
+            continue
+        msg, at = builder_oracle(c, pr[0], pr[1], pr[2])
+        if msg:
+            nv[kind] = nv.get(kind, 0) + 1
+            rep["at_energy"] = hx(at) if isinstance(at, float) else at
+            rep["model_prime_index"] = model_prime.get(ci)
+            ctx.violation("oracle", "%s (grid %g..%g MeV, %d points, prime knot %d)" % (msg, c["es"][0], c["es"][-1], len(c["es"]), c["k"]), rep)
+        elif ci in model_prime and model_prime[ci] != pr[0]:
+            nv[kind] = nv.get(kind, 0) + 1
+            rep["model_prime_index"] = model_prime[ci]
+            ctx.violation("correspondence", "builder model and ValueGridXsBuilder::build disagree on prime_index", rep, no_input=True)
+    ctx.log("builders: %d built grids (%d with a scaled part)" % (len(cases), len(emap)))
+
+
 def run(ctx):
     ctx.trusted += [
         "hand-written model coq/C14/Calc.v on top of coq/C18/Grids.v, tied by differential runs (props/C14/run.py, harness/calc.cc)",
         "float instance of Num (Base/NumF.v, Base/FloatFun.v): own exp/log/expm1/log1p; compared with libm under rtol 1e-9",
         "gap R vs binary64 rounding (DESIGN.md 3.1); fma modelled as a*b+c",
         "hand-built PhysicsParamsData/UrbanMscData host collections in the harness (one particle, one process, one material)",
+        "the table builders of ValueGridBuilder.cc are run for real (libceleritas) and checked against their INPUT tables; only the prime-index computation of ValueGridXsBuilder::build is modelled (coq/C14/Builder.v)",
     ]
     ctx.assumptions += [
         "tables satisfy XsGridData's validity conditions; range tables strictly increasing; values positive",
@@ -519,6 +684,7 @@ def run(ctx):
             elif not any(h["signature"] == F7_SIGNATURE for h in ctx.known_hits):
                 ctx.violation("oracle", "the witness of C14_mean_loss_monotone_refuted reproduces but was not classified as the known finding",
                               {"impl": v}, signature=None)
+    run_builders(ctx)
     if not proofs_ok and not ctx.violations:
         ctx.violation("proof-broken", "Properties_C14.v no longer checks", ctx.broken_proof, no_input=True)
     ctx.coverage["rule"] = ("cases = (calculator, generated table, argument); tables 2..200 knots, prime_index none/0/1/n-2/n-1/every position "
